@@ -136,7 +136,8 @@ pub fn gen_program(t: &mut Tape, wild: bool, max_ops: usize) -> Program {
             17 => {
                 // zlib does not validate tune values; zlib-rs stores them in 16 bits, zlib-ng in 32: values
                 // beyond 0..=65535 (meaningless for a 32 KiB window / 258 byte matches) are not compared
-                let tv = |t: &mut Tape| -> c_int { if t.chance(60) { t.u16() as c_int } else { t.pick(&[0, 1, 2, 3, 4, 8, 32, 128, 258, 259, 1024, 4096, 65535]) } };
+                // and >= 4 (every row of the configuration table): smaller chain values make zlib-ng's chain counter wrap
+                let tv = |t: &mut Tape| -> c_int { if t.chance(60) { 4 + (t.u16() as c_int % 4093) } else { t.pick(&[4, 5, 8, 32, 128, 258, 259, 1024, 4096]) } };
                 Op::DTune { which, a: tv(t), b: tv(t), c: tv(t), d: tv(t) }
             }
             18 | 19 => Op::DPrime { which, bits: if wild { wild_int(t, 0, 16, true) } else { t.below(17) as c_int }, value: t.u32() as c_int },
